@@ -185,11 +185,15 @@ struct filler<1>
     template <typename Container, typename Tuple>
     void operator()(Container& hist, Tuple& lower, Tuple& upper, std::size_t bin_width = 1)
     {
+        // The bins are created (value-initialised to 0) if they do not exist yet. Bins that already
+        // hold counts are left alone: an accumulating fill must add to them, and a non-accumulating
+        // one has cleared the histogram before.
+        std::ptrdiff_t const width = static_cast<std::ptrdiff_t>(bin_width);
         for (auto i = std::get<0>(lower); static_cast<std::size_t>(std::get<0>(upper) - i) >= bin_width; i += bin_width)
         {
-            hist(i / bin_width) = 0;
+            hist(i / width);
         }
-        hist(std::get<0>(upper) / bin_width) = 0;
+        hist(std::get<0>(upper) / width);
     }
 };
 
